@@ -52,7 +52,10 @@ SocketServer::SocketServer()
 SocketServer::~SocketServer()
 {
 	if(_thread) {
-		_thread->kill();
+		if (_running)
+			_thread->kill();
+		else
+			_thread->join(); // the accept loop has ended: wait until its thread no longer uses this object
 		delete _thread;
 	}
 }
